@@ -4,6 +4,7 @@ from lib import Case, hx, enc_attrs, enc_els, dec_attrs, doc_case, unhx
 import xmlcanon, scene
 from scene import fmt, dy
 
+DOC_MODEL = True     # every generated document also runs through the composed Coq model of the whole transform
 RULE = ('reference scenes of 1-5 resolved shapes (rect/circle/ellipse/line/box/point) plus a target placed by a relspec: '
         '4 directions with gaps of either sign, 9 locations + 4 edges (abs/negative/percent) with xy-loc anchors, cxy, dx dy, '
         'per-axis references, 11 scalar kinds, relative sizes, dw/dh, ^ previous; '
